@@ -582,7 +582,15 @@ func (c *Conn) Write(p []byte) (int, error) {
 			case <-c.peerClosed:
 				err = io.ErrClosedPipe
 			case <-c.wd.wait():
-				err = &net.OpError{Op: "write", Net: "bufconn", Err: timeoutError{}}
+				// A write whose bytes the peer has taken is complete, whatever
+				// happens to the deadline before this goroutine gets to run again
+				// (both channels may be ready; select would pick either).
+				c.out.mu.Lock()
+				empty = len(c.out.buf) == 0
+				c.out.mu.Unlock()
+				if !empty {
+					err = &net.OpError{Op: "write", Net: "bufconn", Err: timeoutError{}}
+				}
 			}
 			break
 		}
